@@ -23,7 +23,8 @@ import sys
 import tempfile
 import traceback
 
-from vf import core, snapshot
+from vf import core
+from vf.steps import StepBudget, Steps  # noqa: F401, snapshot
 
 PROP = 'C11'
 LEVEL = 'fault_enumeration'
@@ -59,46 +60,6 @@ SMALL = 12000
 
 
 DECOY = bytes.maketrans(b'123456789', b'234567891')
-
-
-class StepBudget(Exception):
-    '''The logical step budget of one parse was exceeded.'''
-
-
-class Steps:
-    '''PY_START counter (sys.monitoring).'''
-    TOOL = 3
-
-    def __init__(self):
-        self.count = 0
-        self.budget = None
-        self.active = False
-        mon = sys.monitoring
-        try:
-            mon.use_tool_id(self.TOOL, 'vf-steps')
-        except ValueError:
-            return
-        mon.register_callback(self.TOOL, mon.events.PY_START, self._cb)
-        self.active = True
-
-    def _cb(self, code, offset):  # pylint: disable=unused-argument
-        self.count += 1
-        if self.budget is not None and self.count > self.budget:
-            self.budget = None
-            raise StepBudget(f'more than {self.count} function calls')
-
-    def start(self, budget=None):
-        self.count = 0
-        self.budget = budget
-        if self.active:
-            sys.monitoring.set_events(self.TOOL,
-                                      sys.monitoring.events.PY_START)
-
-    def stop(self):
-        if self.active:
-            sys.monitoring.set_events(self.TOOL, 0)
-        self.budget = None
-        return self.count
 
 
 def listings():
